@@ -212,8 +212,9 @@ func (c *Client) hello() error {
 	c.didHello = true
 	if err := c.ehlo(); err != nil {
 		var smtpError *SMTPError
-		if errors.As(err, &smtpError) && (smtpError.Code == 500 || smtpError.Code == 502) {
-			// The server doesn't support EHLO, fallback to HELO
+		if errors.As(err, &smtpError) && (smtpError.Code == 500 || smtpError.Code == 502) && !c.lmtp {
+			// The server doesn't support EHLO, fallback to HELO (LMTP has
+			// no other greeting than LHLO: there the reply is the result)
 			c.helloError = c.helo()
 		} else {
 			c.helloError = err
